@@ -463,3 +463,16 @@ EQUIVALENTS += [
     {"id": "e17", "props": ["C06", "C08", "C02", "C01"], "why": "constants are returned unchanged by expr_transf (no names inside)",
      "files": [("oneliner/expr_transform.py", "def expr_transf(nsp: Namespace, node: expr):\n    return ExpressionTransformer(nsp).cvt(node)", "def expr_transf(nsp: Namespace, node: expr):\n    if isinstance(node, Constant):\n        return node\n    return ExpressionTransformer(nsp).cvt(node)")]},
 ]
+
+# round-2 rules: behaviour-preserving variants that must stay silent
+NSF = "oneliner/namespaces.py"
+EQUIVALENTS += [
+    {"id": "e18", "props": ["C05", "C01", "C17"], "why": "the watcher captures the namespace object, not the counter: still a live read",
+     "files": [(PN, "            self.nsp: NamespaceFunction  # fix type checker error\n            get_interrupt_cnt = lambda: self.nsp.return_cnt", "            fn_nsp = self.nsp\n            get_interrupt_cnt = lambda: fn_nsp.return_cnt")]},
+    {"id": "e19", "props": ["C06", "C12", "C01"], "why": "symbol table hoisted into a local before the lookup",
+     "files": [(NSF, "                outer_symbol = outer.symt.lookup(nonlocal_free)\n                if outer_symbol.is_local():\n                    outer.inner_nonlocal_names.add(nonlocal_free)\n                    self.outer_nonlocal_map[nonlocal_free] = outer\n                    if outer_symbol.is_parameter():\n                        outer.nonlocal_parameters.add(nonlocal_free)\n                    break\n            else:\n                raise RuntimeError(  # pragma: no cover\n                    f\"Unable to search the origin of nonlocal/free '{nonlocal_free}'\"\n                )\n\n    def get_flow_ctrl_expr", "                outer_table = outer.symt\n                outer_symbol = outer_table.lookup(nonlocal_free)\n                if outer_symbol.is_local():\n                    outer.inner_nonlocal_names.add(nonlocal_free)\n                    self.outer_nonlocal_map[nonlocal_free] = outer\n                    if outer_symbol.is_local() and outer_symbol.is_parameter():\n                        outer.nonlocal_parameters.add(nonlocal_free)\n                    break\n            else:\n                raise RuntimeError(  # pragma: no cover\n                    f\"Unable to search the origin of nonlocal/free '{nonlocal_free}'\"\n                )\n\n    def get_flow_ctrl_expr")]},
+    {"id": "e20", "props": ["C16", "C10"], "why": "descriptor stores in both validation branches and returns early",
+     "files": [("oneliner/config.py", "            if not isinstance(value, self.tp):\n                raise ValueError(f\"Invalid value of config '{self.name}'\")\n        instance.__dict__[self.name] = value", "            if not isinstance(value, self.tp):\n                raise ValueError(f\"Invalid value of config '{self.name}'\")\n            instance.__dict__[self.name] = value\n            return\n        vars(instance)[self.name] = value")]},
+    {"id": "e21", "props": ["C11", "C12", "C07"], "why": "implicit classmethod decided before the decorator loop, applied after it",
+     "files": [(PN, "        for dec_expr in reversed(self.node.decorator_list):\n            body_expr = Call(\n                func=expr_transf(self.nsp, dec_expr),\n                args=[body_expr],\n                keywords=[],\n            )\n\n        if self.internal_nsp.is_method and self.node.name in (\n            \"__init_subclass__\",\n            \"__class_getitem__\",\n        ):", "        implicit_cm = self.internal_nsp.is_method and self.node.name in (\n            \"__init_subclass__\",\n            \"__class_getitem__\",\n        )\n        for dec_expr in reversed(self.node.decorator_list):\n            body_expr = Call(\n                func=expr_transf(self.nsp, dec_expr),\n                args=[body_expr],\n                keywords=[],\n            )\n\n        if implicit_cm:")]},
+]
